@@ -109,6 +109,26 @@ func genC16(t *rapid.T) c16Case {
 			c.Ops = append(c.Ops, model.Op{Kind: "mod", Peer: 0, Seq: uint32(200 + si), Sess: si, Note: "any",
 				UpdFARs: []model.FAR{{ID: 2, Action: model.ActFORW, HasFwd: true, DstIf: model.IfAccess, HasOHC: true, TEID: rapid.Uint32().Draw(t, "nteid"), Peer: genAddr(t, "ngnb")}}})
 		}
+		if len(op.QERs) > 0 && rapid.Bool().Draw(t, "updq") {
+			// Update QER over the full numeric domain: the meter cells and terminations are rewritten
+			q := genQER(t, op.QERs[0].ID, false)
+			q.GBRUL, q.GBRDL = 0, 0
+			c.Ops = append(c.Ops, model.Op{Kind: "mod", Peer: 0, Seq: uint32(230 + si), Sess: si, Note: "any", UpdQERs: []model.QER{q}})
+		}
+		if rapid.Bool().Draw(t, "updp") {
+			// Update PDR: the rule re-stated with another precedence, and a rule moved to another key (refused by
+			// the switch or not - every Write must be valid for the pipeline either way)
+			pd := op.PDRs[rapid.IntRange(0, len(op.PDRs)-1).Draw(t, "updpi")]
+			pd.Prec = precs.Draw(t, "nprec")
+			if rapid.Bool().Draw(t, "move") {
+				if pd.Src == "access" {
+					pd.TEID = rapid.Uint32Range(1, 0xffffffff).Draw(t, "mteid")
+				} else {
+					pd.UEIP = fmt.Sprintf("10.250.%d.%d", rapid.IntRange(0, 255).Draw(t, "mue3"), rapid.IntRange(1, 254).Draw(t, "mue4"))
+				}
+			}
+			c.Ops = append(c.Ops, model.Op{Kind: "mod", Peer: 0, Seq: uint32(260 + si), Sess: si, Note: "any", UpdPDRs: []model.PDR{pd}})
+		}
 		if rapid.Bool().Draw(t, "del") {
 			c.Ops = append(c.Ops, model.Op{Kind: "del", Peer: 0, Seq: uint32(300 + si), Sess: si, Note: "any"})
 		}
@@ -175,7 +195,7 @@ func runC16(c c16Case, ev *Ev) error {
 
 func TestC16(t *testing.T) {
 	ev := newEv("C16")
-	ev.Rule = "fresh UP4 agent per case with slice 0-15, default TC 0-3 and a drawn QFI->TC map; sessions over the full numeric domain (precedence 0..65535 with boundaries, any addresses, TEIDs, ports and ranges, protocols, QFI 0-63) plus Update FAR, deletion and a slice configuration over REST; every Write at the harness P4Runtime server is validated against the served P4Info (table, field membership and kind, bit widths, allowed action with exactly its parameters, non-zero priority on ternary/range tables, meter/counter index below size); non-trivial = a write to a table with a non-exact field, or a boundary precedence; distinct by case"
+	ev.Rule = "fresh UP4 agent per case with slice 0-15, default TC 0-3 and a drawn QFI->TC map; sessions over the full numeric domain (precedence 0..65535 with boundaries, any addresses, TEIDs, ports and ranges, protocols, QFI 0-63) plus Update FAR, Update QER, Update PDR (re-stated with another precedence, or moved to another key), deletion and a slice configuration over REST; every Write at the harness P4Runtime server is validated against the served P4Info (table, field membership and kind, bit widths, allowed action with exactly its parameters, non-zero priority on ternary/range tables, meter/counter index below size); non-trivial = a write to a table with a non-exact field, or a boundary precedence; distinct by case"
 	runProp(t, ev, "writes", true, genC16, runC16)
 }
 
